@@ -3,6 +3,7 @@ package main
 import (
 	"fmt"
 	"go/types"
+	"math/big"
 	"strings"
 )
 
@@ -555,5 +556,41 @@ func init() {
 		it.p.sources = append(it.p.sources, Source{Kind: "time", Tag: "env:time.Now", Terms: []*Term{v}})
 		it.p.envReads = append(it.p.envReads, "time.Now")
 		return TimeV{v}
+	}
+}
+
+func init() {
+	models["github.com/cosmos/cosmos-sdk/types/bech32.ConvertAndEncode"] = func(it *Interp, a []Val) Val {
+		t := App("bech32hrp", SStr, it.toA(a[0].(*StrV)), it.toA(a[1].(*StrV)))
+		it.p.noteInjective("bech32hrp", t)
+		it.strLenTerm(t)
+		return Tuple{&StrV{T: t}, IfaceV{}}
+	}
+	models[sdkT+".GetConfig"] = func(it *Interp, a []Val) Val { return Ptr(newVal(&Native{Kind: "sdkconfig"})) }
+	models["(*"+sdkT+".Config).GetBech32AccountAddrPrefix"] = func(it *Interp, a []Val) Val { return strLit("teleport") }
+	models["(*"+sdkT+".Config).GetBech32ValidatorAddrPrefix"] = func(it *Interp, a []Val) Val { return strLit("teleportvaloper") }
+}
+
+func init() {
+	// sdk.Dec{i *big.Int} with 18 decimals
+	models[sdkT+".NewDecWithPrec"] = func(it *Interp, a []Val) Val {
+		i, prec := a[0].(*Term), a[1].(*Term)
+		if !prec.IsConst() {
+			it.fail("NewDecWithPrec with symbolic precision")
+		}
+		pr := prec.val.Int64()
+		if pr < 0 || pr > 18 {
+			it.tpanic("NewDecWithPrec: precision out of range")
+		}
+		mul := new(big.Int).Exp(big.NewInt(10), big.NewInt(18-pr), nil)
+		var dt types.Type
+		for _, p := range it.prog.AllPackages() {
+			if p.Pkg.Path() == sdkT {
+				dt = p.Pkg.Scope().Lookup("Dec").Type()
+			}
+		}
+		s := it.zero(dt).(*StructV)
+		s.F[0] = Ptr(newVal(IntV{IntBin("*", BVToIntSigned(i), IntC(mul))}))
+		return s
 	}
 }
